@@ -265,7 +265,9 @@ func (c *C) orderFlow(fn *ssa.Function, reset func(ssa.Instruction) bool, allEdg
 					}
 					// a first-party helper: what holds at every one of its returns holds after the call
 					// (helpers that report an error are summarised on their success edge instead, see edge1)
-					if cf := callee(ci); cf != nil && cf != fn && !returnsError(cf) {
+					// (for a helper that reports an error this is what holds at all of its returns, failed or not; what
+					// holds at its successful returns is added on the caller's success edge, see edge1)
+					if cf := callee(ci); cf != nil && cf != fn {
 						for f := range c.helperSummary(cf, false, allEdges, vocab) {
 							s[f] = true
 						}
